@@ -309,18 +309,21 @@ def build_world(spec, addresses):
     for k, (source, dests) in enumerate(spec):
         tx = Transaction()
         touch, par = [], []
-        if source < 0:
-            ref = TXRefImmutable.from_id(('%02x' % (0xe0 + k)) * 32, 1)
-            prev = Output.pay_pubkey_hash(10 ** 9, bytes([0xe0 + k]) * 20)
-            prev.tx_ref, prev.position = ref, 0
-            tx.add_inputs([Input.spend(prev)])
-        else:
-            ok, opos, oaddr = owned[source]
-            spent.append(source)
-            prev = txs[ok].outputs[opos]
-            tx.add_inputs([Input.spend(prev)])
-            touch.append(oaddr)
-            par.append(ok)
+        for src in (source if isinstance(source, tuple) else (source,)):
+            if src < 0:
+                ref = TXRefImmutable.from_id(('%02x' % (0xe0 + k)) * 32, 1)
+                prev = Output.pay_pubkey_hash(10 ** 9, bytes([0xe0 + k]) * 20)
+                prev.tx_ref, prev.position = ref, 0
+                tx.add_inputs([Input.spend(prev)])
+            else:
+                ok, opos, oaddr = owned[src]
+                spent.append(src)
+                prev = txs[ok].outputs[opos]
+                tx.add_inputs([Input.spend(prev)])
+                if oaddr not in touch:
+                    touch.append(oaddr)
+                if ok not in par:
+                    par.append(ok)
         for d in dests:
             amount = AMOUNTS[amount_i]
             amount_i += 1
@@ -346,21 +349,30 @@ N_DEST = 3          # receiving addresses 0..2 may be paid; 2 lies beyond the in
 FOREIGN_KEY, FOREIGN_SCRIPT = N_DEST, N_DEST + 1
 
 
-def choose_world(vm, n_tx, first_rich):
+def choose_world(vm, n_tx, first_rich, two_inputs=True):
     """Solver-chosen shape of the transaction chain.  Every transaction has one input - an outpoint the wallet knows nothing about
-    or a still unspent output paying the wallet - a first output to one of the wallet addresses or a foreign key hash, and
+    or a still unspent output paying the wallet (optionally a second such input) - a first output to one of the wallet addresses or a foreign key hash, and
     optionally a second output: a third-party script hash, or wallet address 0 or 1."""
     spec = []
     unspent_owned = []          # indices into `owned` (in creation order) still unspent
     owned_count = 0
     for k in range(n_tx):
+        if k == 0 and first_rich == 'fixed':          # the first transaction simply funds wallet address 0
+            spec.append((-1, [0]))
+            unspent_owned.append(0)
+            owned_count = 1
+            continue
         src = vm.pick('source', 1 + len(unspent_owned))
         if src == 0:
             source = -1
         else:
             source = unspent_owned.pop(src - 1)
+            if two_inputs and unspent_owned:
+                second_in = vm.pick('second_input', 1 + len(unspent_owned))
+                if second_in:
+                    source = (source, unspent_owned.pop(second_in - 1))
         dests = [vm.pick('pays', N_DEST + 1)]
-        second = vm.pick('second_output', 4 if (k > 0 or first_rich) else 2)
+        second = vm.pick('second_output', 4 if (k > 0 or first_rich is True) else 2)
         if second:
             dests.append((FOREIGN_SCRIPT, 0, 1)[second - 1])
         for d in dests:
@@ -395,7 +407,8 @@ def expected_view(world, server, addresses):
             continue
         spender = None
         for j in range(server.n):
-            if world['spends'][j] == i:
+            sp = world['spends'][j]
+            if (i in sp) if isinstance(sp, tuple) else (sp == i):
                 spender = j
         if spender is None:
             utxos[(world['txids'][k], pos)] = world['amounts'][k][pos]
@@ -629,6 +642,8 @@ SHAPES = {
     'beyond-gap': [(-1, [1]), (-1, [2])],
     # one transaction pays two wallet addresses; the second output is then spent abroad
     'two-addresses': [(-1, [0, 1]), (1, [FOREIGN_KEY])],
+    # one transaction pays two wallet addresses, a later one spends both outputs (two inputs from one funding transaction)
+    'spend-both-outputs': [(-1, [0, 1]), ((0, 1), [FOREIGN_KEY])],
     # fund, spend to a stranger with change to the wallet, spend the change
     'change-chain': [(-1, [0]), (0, [FOREIGN_KEY, 1]), (1, [FOREIGN_KEY])],
     # two payments to one address
@@ -643,7 +658,7 @@ def jobs(tier):
     out = []
 
     def seq(n, rich, orders=False):
-        out.append(dict(name=f'seq-{n}tx{"-rich" if rich else ""}{"" if orders is False else "-2orders"}', family='seq', fn='sync',
+        out.append(dict(name=f'seq-{n}tx{("-first-" + rich if isinstance(rich, str) else "-rich") if rich else ""}{"" if orders is False else "-2orders"}', family='seq', fn='sync',
                         args=(n, orders, 0, False, rich),
                         loop_bound=2000, max_depth=80, cost=300 * 40 ** (n - 1),
                         bounds=dict(transactions=n, shape='solver-chosen: source external or any unspent wallet output; first output to wallet '
@@ -651,6 +666,11 @@ def jobs(tier):
                                     stages='2 (any split; any prefix confirmed, the rest in the mempool; optionally all confirmed at the end)',
                                     gap=GAP, schedule='notifications run to completion, ' + ('in every order' if orders is False else
                                                                                       'oldest first or newest first')), must_reach=('ok',)))
+
+    def seq_shape(shape):
+        out.append(dict(name=f'seq-{shape}', family='seq', fn='sync', args=(SHAPES[shape], False, 0, False), loop_bound=2000, max_depth=80, cost=100,
+                        bounds=dict(shape=shape, transactions=len(SHAPES[shape]), stages='2 (any split and confirmation prefix)', gap=GAP,
+                                    schedule='notifications run to completion in every order'), must_reach=('ok',)))
 
     def race(shape, grain, dup, stages, preempt, overlap=False):
         out.append(dict(name=f'race-{shape}-grain{grain}{"-dup" if dup else ""}-{stages}stage{"-overlap" if overlap else ""}-{"any" if preempt is None else preempt}switches',
@@ -664,14 +684,17 @@ def jobs(tier):
                                      else ''), duplicate_notification=dup), must_reach=('ok',)))
     if tier == 'quick':
         seq(2, False, None)
+        seq_shape('spend-both-outputs')
         race('spend-to-own', 0, False, 1, 1)
         race('beyond-gap', 0, False, 1, 1)
         race('same-address-twice', 1, False, 2, 2, True)
     else:
         seq(2, True)
-        seq(3, False)
-        for shape in SHAPES:
+        seq(3, 'fixed', None)
+        seq_shape('spend-both-outputs')
+        for shape in ('spend-to-own', 'two-addresses', 'spend-both-outputs'):
             race(shape, 0, True, 2, 2)
+        for shape in ('beyond-gap', 'change-chain'):
             race(shape, 1, False, 1, 2)
         race('spend-to-own', 2, False, 1, 2)
         race('spend-to-own', 0, False, 1, 3)
